@@ -270,6 +270,25 @@ pub fn nested_case() -> Case {
             for i in 0..xa.len().min(eo.len()) {
                 ctx.claim(&format!("optional-add[{}]", i), Th::Fp, B::Same(eo[i], xa[i] + xb[i]));
             }
+            // optional lists with different Some/None patterns: a slot is added only where both sides hold a tensor, slot by slot
+            let pa = Tensor::nestedoptional(vec![Some(parts_a[0].clone()), None, Some(parts_a[2].clone()), Some(parts_a[2].clone())]);
+            let pb = Tensor::nestedoptional(vec![None, Some(parts_b[0].clone()), Some(parts_b[2].clone()), None]);
+            let mut po = pa.clone();
+            let res = ctx.catch(|_| po.add_inplace(&pb));
+            ctx.fact("optional-different-patterns-accepted", res.is_ok(), format!("{:?}", res.err()));
+            let un = po.unnestedoptional();
+            ctx.fact("optional-different-patterns-structure", un.len() == 4 && un[0].is_some() && un[1].is_none() && un[2].is_some() && un[3].is_some(), String::new());
+            if un.len() == 4 && un[0].is_some() && un[2].is_some() && un[3].is_some() {
+                let (s0, s2, s3) = (elems(un[0].as_ref().unwrap()), elems(un[2].as_ref().unwrap()), elems(un[3].as_ref().unwrap()));
+                let (a0, a2, b2) = (elems(&parts_a[0]), elems(&parts_a[2]), elems(&parts_b[2]));
+                for i in 0..a0.len().min(s0.len()) {
+                    ctx.claim(&format!("optional-patterns-slot0[{}]", i), Th::Fp, B::Same(s0[i], a0[i]));
+                }
+                for i in 0..a2.len().min(s2.len()) {
+                    ctx.claim(&format!("optional-patterns-slot2[{}]", i), Th::Fp, B::Same(s2[i], a2[i] + b2[i]));
+                    ctx.claim(&format!("optional-patterns-slot3[{}]", i), Th::Fp, B::Same(s3[i], a2[i]));
+                }
+            }
             // nested lists refuse operands whose shapes differ — in the outer length or in any inner tensor
             let k = |v: f32, n: usize| t1(&(0..n).map(|i| lit(v + i as f32)).collect());
             let m = |v: f32, r: usize, c: usize| t2(&(0..r).map(|i| (0..c).map(|j| lit(v + (i * c + j) as f32)).collect()).collect());
